@@ -184,6 +184,24 @@ def check(ctx):
         r1.bad(V(r1.id, "<anchor>", "missing:ZodSchemaBuilder::render_type", "anchor not found"))
     r1.require_floor(5, "custom renderers")
     r4.require_floor(3, "zod images")
+    # a channel's message type is printed through the visitor like every other type: each `Channel<..>` hole of the templates is the rendered
+    # type (typescriptMessageType), not the Rust text kept next to it (which no mapping is applied to)
+    from tplpaths import consistent as _cons18
+    n_ch = 0
+    for tn in sorted(T_.reachable_templates()):
+        holes_ = set()
+        for p_ in T_.paths_in_context(tn) or []:
+            if not _cons18(p_.conds):
+                continue
+            flat_ = p_.flat(loop=lambda it: "".join(bp.flat() for bp in it[3][:4]))
+            holes_.update(m_.group(1).strip() for m_ in re.finditer(r"Channel<⟦([^⟧]+)⟧>", flat_))
+        for h_ in sorted(holes_):
+            n_ch += 1
+            if re.fullmatch(r"\w+\.typescriptMessageType", h_):
+                r1.ok("%s: Channel<%s>" % (tn, h_))
+            else:
+                r1.bad(V(r1.id, tn, "channel-type-source:%s" % h_, "%s prints Channel<{{ %s }}>: not the visitor's rendering of the message type, so a mapped "
+                         "type appears under its Rust name" % (tn, h_)))
     rules += [r1, r4]
 
     # ---------------------------------------------------------------- D2
